@@ -1,7 +1,14 @@
 """Seeded generator of EXECUTABLE Mamba programs for C01: every program terminates, prints values on
 the way, and stays inside the fragment the reference semantics (coq/model/MEval.v) interprets.
 Constructs: operators, exclusive/inclusive ranges with step, if/match/while/for as statements and as
-expressions, functions with implicit and explicit return, raise/handle, tuples, lists, `?`."""
+expressions, functions with implicit and explicit return, raise/handle, tuples, lists, `?`.
+Feature "class": 1-2 classes (constructor arguments declared with `def`, a parent with arguments - passed
+on by name or as constants -, body fields with constant initialisers, methods reading and updating the
+fields of `self`, calling earlier methods), objects created at top level and used (fields read and
+updated, methods called, objects passed to functions), and user exception classes (optionally with a
+field and a parent exception class) raised by functions and handled through the class hierarchy.
+A field is only read where the reference semantics gives it a meaning: an argument that is passed on
+to a parent is NOT read under its own name (the emitted constructor does not assign it)."""
 
 INT, BOOL, STR, LIST, OPT = "Int", "Bool", "Str", "List[Int]", "Int?"
 
@@ -16,6 +23,9 @@ class G:
         self.tags = set()
         self.pairs = []  # (fully parenthesised, minimally parenthesised) renderings
         self.ro = set()  # names that must not be reassigned (parameters, loop variables)
+        self.classes = {}   # name -> {"params": [(n, t)], "fields": {n: t}, "methods": [(n, [t], ret)], "parent": name|None}
+        self.excs = []      # (name, [param types], parent or None, has_code_field)
+        self.objs = []      # (variable, class name)  top-level objects
 
     def on(self, k):
         return self.f is None or k in self.f
@@ -51,8 +61,25 @@ class G:
     def b(self, op, l, r_):
         return ("b", op, self.LEVEL[op], l, r_)
 
+    def isa(self, c, target):
+        while c is not None:
+            if c == target:
+                return True
+            c = self.classes[c]["parent"]
+        return False
+
+    def construct(self, cname, env, d):
+        args = ", ".join(self.full(self.tree(t, env, min(d, 1))) for _, t in self.classes[cname]["params"])
+        return f"{cname}({args})"
+
     def tree(self, ty, env, d):
         r = self.r
+        if isinstance(ty, tuple):      # ("obj", class): a variable holding such an object, or a constructor call
+            vs = [n for n, t in env.items() if isinstance(t, tuple) and self.isa(t[1], ty[1])]
+            vs += [n for n, c in self.objs if self.isa(c, ty[1])]
+            if vs and r.random() < 0.7:
+                return ("a", r.choice(vs))
+            return ("a", self.construct(ty[1], {k: v for k, v in env.items() if not isinstance(v, tuple)}, 1))
         vs = [n for n, t in env.items() if t == ty]
         if d <= 0 or r.random() < 0.2:
             if vs and r.random() < 0.7:
@@ -142,6 +169,15 @@ class G:
         self.pairs.append((self.full(t), m if t[0] == "a" else f"({m})"))
         return f"\x01{len(self.pairs) - 1}\x02"
 
+    def bounded(self, env):
+        """an Int expression of small magnitude: `e mod k` (or an atom when `mod` is switched off)"""
+        if not self.on("div"):
+            return self.expr(INT, env, 0)
+        t = self.b("mod", self.tree(INT, env, 1), ("a", str(self.r.choice([7, 10, 13, 50]))))
+        self.pairs.append((self.full(t), self.mini(t)))
+        self.tags.add("div")
+        return f"\x01{len(self.pairs) - 1}\x02"
+
     def range_expr(self, env):
         r = self.r
         a, b = self.operand(INT, env, 1), self.operand(INT, env, 1)
@@ -192,6 +228,10 @@ class G:
             kinds += ["if", "if", "while", "for", "for", "match", "defif", "defmatch", "handle"]
         if fun and fun[1] and d > 0:
             kinds += ["ret"]
+        if self.procs(env):
+            kinds += ["mcall"] * 2
+        if d > 0 and self.excs and any(f[3] and f[2] == INT for f in self.funs):
+            kinds += ["handle"] * 2
         k = r.choice(kinds)
         if k == "def":
             ty = r.choice([INT, INT, INT, BOOL, STR, LIST, OPT])
@@ -220,9 +260,16 @@ class G:
             if not vs:
                 return
             v = r.choice(vs)
-            op = r.choice([":=", ":=", "+=", "-=", "*="])
-            self.emit(ind, f"{v} {op} {self.expr(INT, env, 1)}")
-            self.tags.add("reassign")
+            if loop or "." in v:
+                # state that survives an iteration or a call (loop variables, fields) is kept small: repeated
+                # multiplication would make the numbers astronomically long and stall all three evaluators
+                op = r.choice([":=", ":=", "+=", "-="])
+                self.emit(ind, f"{v} {op} {self.bounded(env)}")
+                self.tags.add("field_update" if "." in v else "reassign")
+            else:
+                op = r.choice([":=", ":=", "+=", "-=", "*="])
+                self.emit(ind, f"{v} {op} {self.expr(INT, env, 1)}")
+                self.tags.add("reassign")
         elif k == "if" and self.on("if"):
             self.emit(ind, f"if {self.expr(BOOL, env, 2)} then")
             self.block(ind + 1, env, d - 1, r.randint(1, 2), fun, loop)
@@ -285,12 +332,37 @@ class G:
             f = r.choice(fs)
             name = self.fresh()
             self.emit(ind, f"def {name}: Int := {f[0]}({', '.join(self.expr(t, env, 1) for t in f[1])}) handle")
-            self.emit(ind + 1, "err: Exception =>")
-            if r.random() < 0.5:
-                self.emit(ind + 2, "print(err)")
-            self.emit(ind + 2, self.expr(INT, env, 1))
+            exc = f[3] if isinstance(f[3], str) else None
+            if exc is None:
+                arms = ["Exception"]
+            else:
+                # the raised class, one of its ancestors, or Exception; sometimes a more specific arm first
+                chain = [exc]
+                while self.exc_parent(chain[-1]):
+                    chain.append(self.exc_parent(chain[-1]))
+                chain.append("Exception")
+                k0 = r.randrange(len(chain))
+                arms = [chain[k0]]
+                if k0 > 0 and r.random() < 0.4:
+                    arms = [chain[r.randrange(k0)], chain[k0]]
+                    self.tags.add("handle_two_arms")
+                self.tags.add("handle_user_exception" if arms[-1] != "Exception" else "handle_user_exception_as_Exception")
+            for cls in arms:
+                self.emit(ind + 1, f"err: {cls} =>")
+                if r.random() < 0.5:
+                    self.emit(ind + 2, "print(err)")
+                    self.tags.add("print_exception")
+                if cls != "Exception" and self.exc_code(cls) and r.random() < 0.6:
+                    self.emit(ind + 2, f"err.code + {self.expr(INT, env, 0)}")
+                    self.tags.add("exception_field")
+                else:
+                    self.emit(ind + 2, self.expr(INT, env, 1))
             env[name] = INT
             self.tags.add("handle")
+        elif k == "mcall":
+            recv, m, ats = r.choice(self.procs(env))
+            self.emit(ind, f"{recv}.{m}({', '.join(self.expr(t, env, 1) for t in ats)})")
+            self.tags.add("method_call_statement")
         elif k == "ret":
             self.emit(ind, f"if {self.expr(BOOL, env, 1)} then return {self.expr(fun[1], env, 1)}")
             self.tags.add("early_return")
@@ -300,10 +372,21 @@ class G:
         name = self.fresh("f")
         args = [(self.fresh("a"), r.choice([INT, INT, BOOL, STR])) for _ in range(r.randint(0, 3))]
         ret = r.choice([INT, INT, INT, STR, BOOL, None])
-        raises = ret == INT and self.on("handle") and r.random() < 0.3
-        sig = ", ".join(f"{a}: {t}" for a, t in args)
-        head = f"def {name}({sig})" + (f" -> {ret}" if ret else "") + (" raise [Exception]" if raises else "") + " =>"
+        raises = ret == INT and self.on("handle") and r.random() < (0.6 if self.excs else 0.3)
+        if raises and self.excs and r.random() < 0.8:
+            raises = r.choice(self.excs)[0]          # the name of a user exception class
+        if self.classes and self.on("class") and r.random() < 0.35:
+            cn = r.choice(sorted(self.classes))
+            args.append((self.fresh("o"), ("obj", cn)))
+            self.tags.add("object_parameter")
+        sig = ", ".join(f"{a}: {t[1] if isinstance(t, tuple) else t}" for a, t in args)
+        rcls = raises if isinstance(raises, str) else "Exception"
+        head = f"def {name}({sig})" + (f" -> {ret}" if ret else "") + (f" raise [{rcls}]" if raises else "") + " =>"
         env = {a: t for a, t in args}
+        for a, t in args:
+            if isinstance(t, tuple):
+                for fn, ft in self.visible_fields(t[1]).items():
+                    env[f"{a}.{fn}"] = ft
         self.ro.update(a for a, _ in args)
         if ret and r.random() < 0.25 and not raises:
             self.emit(0, head + " " + self.expr(ret, env, 2))
@@ -311,7 +394,13 @@ class G:
         else:
             self.emit(0, head)
             if raises:
-                self.emit(1, f"if {self.expr(BOOL, env, 1)} then raise Exception(\"{r.choice(['boom', 'bad', 'no'])}\")")
+                msg = '"' + r.choice(['boom', 'bad', 'no']) + '"'
+                if isinstance(raises, str):
+                    what = f"{raises}({', '.join(msg if t == STR else self.expr(INT, env, 0) for t in self.exc_params(raises))})"
+                    self.tags.add("raise_user_exception")
+                else:
+                    what = f"Exception({msg})"
+                self.emit(1, f"if {self.expr(BOOL, env, 1)} then raise {what}")
                 self.tags.add("raise")
             if ret:
                 self.valued_block(1, env, 2, ret, (name, ret))
@@ -321,12 +410,179 @@ class G:
                 self.tags.add("procedure")
         self.funs.append((name, [t for _, t in args], ret, raises))
 
+    # ---------------------------------------------------------------- classes
+    def exc_parent(self, name):
+        return next(e[2] for e in self.excs if e[0] == name)
+
+    def exc_params(self, name):
+        return next(e[1] for e in self.excs if e[0] == name)
+
+    def exc_code(self, name):
+        return next(e[3] for e in self.excs if e[0] == name)
+
+    def visible_fields(self, cname):
+        """fields an object of the class has under the reference semantics: own arguments not passed on,
+        body fields, and the parent's"""
+        out = {}
+        chain = []
+        while cname is not None:
+            chain.append(cname)
+            cname = self.classes[cname]["parent"]
+        for c in reversed(chain):
+            out.update(self.classes[c]["fields"])
+        return out
+
+    def all_methods(self, cname):
+        out = {}
+        chain = []
+        while cname is not None:
+            chain.append(cname)
+            cname = self.classes[cname]["parent"]
+        for c in reversed(chain):
+            for m in self.classes[c]["methods"]:
+                out[m[0]] = m
+        return list(out.values())
+
+    def procs(self, env):
+        """(receiver, method, argument types) of the procedures callable on objects in scope"""
+        out = []
+        recv = [(n, t[1]) for n, t in env.items() if isinstance(t, tuple)] + list(self.objs)
+        for n, c in recv:
+            for m in self.all_methods(c):
+                if m[2] is None:
+                    out.append((n, m[0], m[1]))
+        return out
+
+    def exception_class(self):
+        r = self.r
+        name = self.fresh("E")
+        parent = r.choice(self.excs) if self.excs and r.random() < 0.5 else None
+        code = r.random() < 0.5
+        if parent is None:
+            # class E(def code: Int, def msg: Str): Exception(msg)   - msg is passed on, code becomes a field
+            params = ([INT] if code else []) + [STR]
+            head = ", ".join((["def code: Int"] if code else []) + ["def msg: Str"])
+            self.emit(0, f"class {name}({head}): Exception(msg)")
+            has_code = code
+        else:
+            pn, pparams, _, pcode = parent
+            if pparams == [STR] and r.random() < 0.3:
+                # own Int argument (a field), constant message
+                params, head, call = [INT], "def n: Int", f"{pn}(\"{r.choice(['fixed', 'sub'])}\")"
+                self.tags.add("parent_constant_argument")
+            else:
+                # every argument of the parent is passed on under a new name
+                names = [("c" if t == INT else "msg") + str(k) for k, t in enumerate(pparams)]
+                params = list(pparams)
+                head = ", ".join(f"def {n}: {t}" for n, t in zip(names, pparams))
+                call = f"{pn}({', '.join(names)})"
+            self.emit(0, f"class {name}({head}): {call}")
+            has_code = pcode
+            self.tags.add("exception_subclass")
+        self.excs.append((name, params, parent[0] if parent else None, has_code))
+        self.tags.add("exception_class")
+
+    def klass(self):
+        r = self.r
+        name = self.fresh("C")
+        plain = [c for c in self.classes]
+        parent = r.choice(sorted(plain)) if plain and r.random() < 0.5 else None
+        params, fields, call = [], {}, ""
+        for _ in range(r.randint(0 if parent else 1, 2)):
+            a = self.fresh("x")
+            t = r.choice([INT, INT, INT, STR, BOOL])
+            params.append((a, t))
+            fields[a] = t
+        if parent:
+            pargs = []
+            for pa, pt in self.classes[parent]["params"]:
+                if pt != STR or r.random() < 0.6:
+                    a = self.fresh("p")        # passed on: not a field under this name
+                    params.append((a, pt))
+                    pargs.append(a)
+                else:
+                    pargs.append(self.lit(STR))   # the parser admits only names and strings as parent arguments
+                    self.tags.add("parent_constant_argument")
+            r.shuffle(params)
+            call = f": {parent}({', '.join(pargs)})" if pargs else f": {parent}"
+            self.tags.add("class_parent")
+        head = ", ".join(f"def {a}: {t}" for a, t in params)
+        self.emit(0, f"class {name}" + (f"({head})" if params else "") + call)
+        self.classes[name] = {"params": params, "fields": fields, "methods": [], "parent": parent}
+        for _ in range(r.randint(0, 2)):
+            z = self.fresh("z")
+            t = r.choice([INT, INT, STR, BOOL])
+            self.emit(1, f"def {z}: {t} := {self.lit(t)}")
+            fields[z] = t
+            self.tags.add("body_field")
+        saved_funs, saved_ro = list(self.funs), set(self.ro)
+        # methods of ancestors are callable on self
+        for m in self.all_methods(name):
+            self.funs.append((f"self.{m[0]}", m[1], m[2], False))
+        n_methods = r.randint(1, 3)
+        for _ in range(n_methods):
+            m = self.fresh("m")
+            args = [(self.fresh("a"), r.choice([INT, INT, BOOL, STR])) for _ in range(r.randint(0, 2))]
+            ret = r.choice([INT, INT, STR, BOOL, None, None])
+            sig = ", ".join(["self"] + [f"{a}: {t}" for a, t in args])
+            env = {a: t for a, t in args}
+            self.ro.update(a for a, _ in args)
+            for fn, ft in self.visible_fields(name).items():
+                env[f"self.{fn}"] = ft
+            headm = f"def {m}({sig})" + (f" -> {ret}" if ret else "") + " =>"
+            if ret and r.random() < 0.3:
+                self.emit(1, headm + " " + self.expr(ret, env, 2))
+            else:
+                self.emit(1, headm)
+                if ret:
+                    self.valued_block(2, env, 2, ret, (m, ret))
+                    self.tags.add("method_implicit_return")
+                else:
+                    ints = [f for f, t in self.visible_fields(name).items() if t == INT]
+                    updated = bool(ints) and r.random() < 0.8
+                    if updated:
+                        f0 = r.choice(ints)
+                        op = r.choice([":=", "+=", "-="])
+                        self.emit(2, f"self.{f0} {op} {self.bounded(env)}")
+                        self.tags.add("field_update")
+                    self.block(2, env, 1, r.randint(0 if updated else 1, 2), (m, None))
+                    self.tags.add("method_procedure")
+            self.classes[name]["methods"].append((m, [t for _, t in args], ret))
+            self.funs.append((f"self.{m}", [t for _, t in args], ret, False))
+        self.funs, self.ro = saved_funs, saved_ro
+        if not fields and not self.classes[name]["methods"] and not params and not parent:
+            self.emit(1, "pass")
+        self.tags.add("class")
+
+    def new_object(self, env):
+        r = self.r
+        cn = r.choice(sorted(self.classes))
+        o = self.fresh("o")
+        self.emit(0, f"def {o} := {cn}({', '.join(self.expr(t, env, 1) for _, t in self.classes[cn]['params'])})")
+        self.objs.append((o, cn))
+        self.ro.add(o)
+        for fn, ft in self.visible_fields(cn).items():
+            env[f"{o}.{fn}"] = ft
+        for m in self.all_methods(cn):
+            if m[2] is not None:
+                self.funs.append((f"{o}.{m[0]}", m[1], m[2], False))
+        self.tags.add("object")
+
     def program(self, size):
         r = self.r
         env = {}
+        with_classes = self.f is not None and "class" in self.f or (self.f is None and r.random() < 0.4)
+        if with_classes:
+            for _ in range(r.randint(0, 2)):
+                self.exception_class()
+            for _ in range(r.randint(1, 2)):
+                self.klass()
         for _ in range(r.randint(0, 3)):
             if self.on("fun"):
                 self.fun()
+        if with_classes:
+            for _ in range(r.randint(1, 2)):
+                self.new_object(env)
         for _ in range(size):
             self.stmt(0, env, 2, None, False)
             if self.on("fun") and r.random() < 0.1:
